@@ -664,6 +664,12 @@ func (fc *FnCtx) execCall(st *State, in ssa.Instruction, c *ssa.CallCommon, resT
 		res = fc.applyContract(st, in, c, callee, con, key, args, resT)
 		handled = true
 	}
+	if !handled && c.IsInvoke() && con == nil && g.inModule(c.Method.Pkg()) {
+		if r, ok := fc.applyDispatch(st, in, c, args, resT); ok {
+			res = r
+			handled = true
+		}
+	}
 	if !handled && callee != nil {
 		if inl := g.inlineRule(fc, st, in, callee, args, resT); inl != nil {
 			res = *inl
@@ -951,7 +957,7 @@ func (fc *FnCtx) applyContract(st *State, in ssa.Instruction, c *ssa.CallCommon,
 			fc.err = fmt.Errorf("%s: call %s requires %q: %v", fc.name, key, r.Text, err)
 			return fc.freshVal(st, resT, "call")
 		}
-		fc.oblige(st, "pre@"+short, r.Label, t, in.Pos(), r.Props)
+		fc.oblige(st, "pre@"+short, r.Label, t, in.Pos(), fc.callerProps(r.Props))
 		fc.q.assert(implies(st.reach, t))
 	}
 	// higher-order contract: the callee invokes its function-typed parameter exactly once, first.
@@ -1059,7 +1065,7 @@ func (fc *FnCtx) applyContract(st *State, in ssa.Instruction, c *ssa.CallCommon,
 		st.ghost[k] = t
 	}
 	for _, e := range con.Ensures {
-		if hasGhost(e.Expr) && !(override != nil && ghostsWithin(e.Expr, "#"+con.Invokes)) {
+		if fc.g.hasGhostDeep(e.Expr, con.PkgPath, 0) && !(override != nil && ghostsWithin(e.Expr, "#"+con.Invokes)) {
 			continue // speaks about the callee's own call log
 		}
 		t, err := fc.evalBool(post, e.Expr)
@@ -1305,7 +1311,7 @@ func (fc *FnCtx) invokeClosure(st *State, in ssa.Instruction, cfn *ssa.Function,
 				fc.err = fmt.Errorf("%s: closure %s requires %q: %v", fc.name, key, r.Text, err)
 				return fc.freshVal(st, resT, "closure")
 			}
-			fc.oblige(st, "pre@"+short, r.Label, t, in.Pos(), r.Props)
+			fc.oblige(st, "pre@"+short, r.Label, t, in.Pos(), fc.callerProps(r.Props))
 			fc.q.assert(implies(st.reach, t))
 		}
 	}
@@ -1352,7 +1358,7 @@ func (fc *FnCtx) invokeClosure(st *State, in ssa.Instruction, cfn *ssa.Function,
 		st.ghost[k] = t
 	}
 	for _, e := range ccon.Ensures {
-		if hasGhost(e.Expr) {
+		if fc.g.hasGhostDeep(e.Expr, ccon.PkgPath, 0) {
 			continue
 		}
 		t, err := fc.evalBool(post, e.Expr)
@@ -1429,4 +1435,134 @@ func (fc *FnCtx) markYoungResults(st *State, pre *State, c *ssa.CallCommon, args
 	} else if resT != nil {
 		mark(res, resT)
 	}
+}
+
+// applyDispatch: dynamic dispatch on an in-module interface whose implementations carry contracts: case split on the
+// receiver's dynamic type (closed world: the implementations are those in the loaded module packages).
+func (fc *FnCtx) applyDispatch(st *State, in ssa.Instruction, c *ssa.CallCommon, args []Val, resT types.Type) (Val, bool) {
+	g := fc.g
+	it, ok := c.Value.Type().Underlying().(*types.Interface)
+	if !ok {
+		return Val{}, false
+	}
+	impls := g.implementations(it, c.Method)
+	type alt struct {
+		fn    *ssa.Function
+		con   *Contract
+		guard string
+		env   *Env
+	}
+	var alts []alt
+	any := false
+	recv := args[0].T
+	pre := st.clone()
+	for _, f := range impls {
+		con := g.contracts[g.fnName(f)]
+		if con != nil && (len(con.Ensures) > 0 || len(con.Requires) > 0) {
+			any = true
+		}
+		rt := f.Signature.Recv().Type()
+		guard := eq("(itag "+recv+")", fmt.Sprint(g.ti.typeID(rt)))
+		env := &Env{fc: fc, vars: map[string]Val{}, pre: pre, cur: pre}
+		if con != nil {
+			env.pkg = con.Pkg
+		}
+		for i, p := range f.Params {
+			var v Val
+			if i == 0 {
+				v = fc.unbox(pre, recv, rt)
+			} else if i < len(args) {
+				v = args[i]
+			}
+			v.Typ = p.Type()
+			env.vars[p.Name()] = v
+		}
+		alts = append(alts, alt{f, con, guard, env})
+	}
+	if !any || len(alts) == 0 {
+		return Val{}, false
+	}
+	var guards []string
+	for _, a := range alts {
+		guards = append(guards, a.guard)
+		if a.con == nil {
+			continue
+		}
+		key := g.fnName(a.fn)
+		short := key[strings.LastIndex(key, "/")+1:]
+		for _, r := range a.con.Requires {
+			t, err := fc.evalBool(a.env, r.Expr)
+			if err != nil {
+				fc.err = fmt.Errorf("%s: dispatch %s requires %q: %v", fc.name, key, r.Text, err)
+				return Val{}, true
+			}
+			fc.oblige(st, "pre@"+short, r.Label, implies(a.guard, t), in.Pos(), fc.callerProps(r.Props))
+			fc.q.assert(implies(and(st.reach, a.guard), t))
+		}
+	}
+	// closed world: the receiver is one of the known implementations
+	fc.q.assert(implies(st.reach, or(guards...)))
+	base, parts := g.callFrameParts(c)
+	fc.applyCallFrame(st, c, base, parts)
+	res := fc.freshVal(st, resT, "ret_"+sanitize(c.Method.Name()))
+	sig := c.Signature()
+	for _, a := range alts {
+		if a.con == nil {
+			continue
+		}
+		post := &Env{fc: fc, vars: a.env.vars, pre: pre, cur: st, pkg: a.con.Pkg}
+		if res.Tup != nil {
+			post.results = res.Tup
+		} else if res.T != "" || res.SV != nil {
+			post.results = []Val{res}
+		}
+		for i := range post.results {
+			if i < sig.Results().Len() {
+				post.results[i].Typ = sig.Results().At(i).Type()
+				if n := a.fn.Signature.Results().At(i).Name(); n != "" && n != "_" {
+					post.vars[n] = post.results[i]
+				}
+			}
+		}
+		for _, se := range a.con.Sets {
+			t, err := fc.evalBool(post, se.Expr)
+			if err != nil {
+				continue
+			}
+			k := "fact:" + se.Var
+			fc.ghostSort[k] = sBool
+			if _, ok := fc.ghostInit[k]; !ok {
+				fc.ghostInit[k] = fc.factInit(se.Var)
+			}
+			old := st.ghostGet(k, sBool, fc.ghostInit[k])
+			st.ghost[k] = ite(a.guard, t, old)
+		}
+		for _, e := range a.con.Ensures {
+			if fc.g.hasGhostDeep(e.Expr, a.con.PkgPath, 0) {
+				continue
+			}
+			t, err := fc.evalBool(post, e.Expr)
+			if err != nil {
+				fc.err = fmt.Errorf("%s: dispatch %s ensures %q: %v", fc.name, g.fnName(a.fn), e.Text, err)
+				return res, true
+			}
+			fc.q.assert(implies(and(st.reach, a.guard), t))
+		}
+	}
+	return res, true
+}
+
+// callerProps: a precondition obligation at a call site belongs to the properties of the calling function
+// (it is the caller that has to establish it) as well as to those of the callee's clause.
+func (fc *FnCtx) callerProps(clause []string) []string {
+	set := map[string]bool{}
+	if fc.con != nil {
+		for _, p := range fc.con.Props {
+			set[p] = true
+		}
+	}
+	for _, p := range clause {
+		set[p] = true
+	}
+	return sortedKeys(set)
 }
